@@ -8,7 +8,7 @@ import shapes
 ALL_TYPES = [1, 3, 5, 8, 11, 13, 15, 18, 21, 23, 25, 28, 31]
 
 
-def gen_rec(rng, code, profile="mixed", max_parts=4, max_pts=5, allow_degenerate=True):
+def gen_rec(rng, code, profile="mixed", max_parts=4, max_pts=5, allow_degenerate=True, lens=None):
     """A conformant record of the given type with random optional-M choice,
     part structure (including zero parts, zero- and one-vertex parts) and an
     arbitrary stored box."""
@@ -27,8 +27,10 @@ def gen_rec(rng, code, profile="mixed", max_parts=4, max_pts=5, allow_degenerate
     if code in refesri.MULTIPOINT:
         n = rng.randint(0 if allow_degenerate else 1, max_pts)
     else:
-        nparts = rng.randint(0 if allow_degenerate else 1, max_parts)
-        lens = [rng.randint(0 if allow_degenerate else 2, max_pts) for _ in range(nparts)]
+        if lens is None:
+            nparts = rng.randint(0 if allow_degenerate else 1, max_parts)
+            lens = [rng.randint(0 if allow_degenerate else 2, max_pts) for _ in range(nparts)]
+        nparts = len(lens)
         n = sum(lens)
         offs, acc = [], 0
         for l in lens:
